@@ -111,13 +111,33 @@ def build_model(spec, initialize=True, rules=True):
             same = next((d_ for d_ in pool if d_ == t_[3]), None)
             if same is None: pool.append(t_[3])
             else: rts[i_] = t_[:3] + (same,) + t_[4:]
-    M = Model(species=list(spec["species"]), reactions=rts,
+    # spec["late_reactions"] = k: the last k reactions are added with create_reaction AFTER the model has been constructed (and, with
+    # initialize=True, initialised) with the others, and the model is NOT re-initialised by hand: whoever uses it next (an interface,
+    # py_simulate_model) has to notice -- a construction history, not a different model (seeded change S7_C03: a reaction that brings no
+    # new species and no new parameter no longer marked the model as changed)
+    late_rx = min(int(spec.get("late_reactions", 0) or 0), max(len(rts) - 1, 0))
+    M = Model(species=list(spec["species"]), reactions=rts[:len(rts) - late_rx],
               parameters=list(spec["parameters"].items()),
               rules=rl[:len(rl) - late],
               initial_condition_dict=dict(spec["x0"]), initialize_model=initialize)
     for r in rl[len(rl) - late:]: M.create_rule(*r)
     if late and initialize: M.py_initialize()
+    for t_ in rts[len(rts) - late_rx:]: M.create_reaction(*t_)
     return M
+
+def name_late_parameters(spec, k):
+    """makes the last k reactions of spec 'late' and turns their numeric constants into named parameters that exist in the model from the start
+    (with every species declared), so that adding them later brings nothing new but the reaction itself"""
+    k = min(k, len(spec["reactions"]) - 1)
+    if k <= 0: return spec
+    n0 = len(spec["reactions"]) - k
+    for j, rx in enumerate(spec["reactions"][n0:]):
+        for dct in [rx["params"]] + ([rx["delay"]["params"]] if "delay" in rx and rx["delay"].get("params") else []):
+            for key_, v in list(dct.items()):
+                if isinstance(v, (int, float)) and not isinstance(v, bool) and key_ not in ("species",):
+                    nm = "late_%s_%d_%d" % (key_, n0 + j, len(spec["parameters"])); spec["parameters"][nm] = float(v); dct[key_] = nm
+    spec["late_reactions"] = k
+    return spec
 
 def term_tokens(term):
     """Structural dump of a bioscrape Term object through its pickle reduction."""
